@@ -3,6 +3,8 @@
 //! Lean driver) and `<stream>.impl.jsonl` (the implementation's outcomes).
 mod common;
 mod jsonio;
+mod prog;
+mod s_authz;
 mod s_engine;
 mod s_expr;
 
@@ -20,6 +22,7 @@ fn main() {
     match args[1].as_str() {
         "expr" => s_expr::run(&opts),
         "engine" => s_engine::run(&opts),
+        "authz" => s_authz::run(&opts),
         other => {
             eprintln!("unknown stream {other}");
             std::process::exit(2);
